@@ -26,6 +26,26 @@ def opsCore (op : String) (a : List String) : Option String :=
     let h ← parseH h
     pure ("ok " ++ toString (H3.Gen.Bits.h3LeadingNonZeroDigit h).toNat ++ " " ++ showH (H3.Gen.Bits.h3Rotate60ccw h)
       ++ " " ++ showH (H3.Gen.Bits.h3Rotate60cw h))
+  | "genfn2", [h, r, o] => do
+    -- functions with out parameters / conditionals in loops / table columns, as translated by c2lean: return code,
+    -- final value of the out parameter (preset to `o` by the caller), and the definedness companion
+    let h ← parseH h
+    let r ← parseInt r
+    let o ← parseH o
+    let rb := BitVec.ofInt 32 r
+    let b := fun (x : Bool) => if x then "1" else "0"
+    let mdc := if H3.Gen.Bits.makeDirectChild_defined h rb then showH (H3.Gen.Bits.makeDirectChild h rb) else "-"
+    let sh := if H3.Gen.Bits.setH3Index_defined o rb (BitVec.ofNat 32 (getBaseCell h)) (BitVec.ofNat 32 (getDigit h 1))
+      then showH (H3.Gen.Bits.setH3Index_out_hp o rb (BitVec.ofNat 32 (getBaseCell h)) (BitVec.ofNat 32 (getDigit h 1))) else "-"
+    pure ("ok " ++ toString (H3.Gen.Bits.cellToParent h rb o).toNat ++ " " ++ showH (H3.Gen.Bits.cellToParent_out_out h rb o)
+      ++ " " ++ toString (H3.Gen.Bits.cellToCenterChild h rb o).toNat ++ " " ++ showH (H3.Gen.Bits.cellToCenterChild_out_child h rb o)
+      ++ " " ++ toString (H3.Gen.Bits.cellToChildrenSize h rb o).toNat ++ " " ++ showH (H3.Gen.Bits.cellToChildrenSize_out_out h rb o)
+      ++ " " ++ toString (H3.Gen.Bits.isPentagon h).toNat
+      ++ " " ++ showH (H3.Gen.Bits.h3RotatePent60ccw h) ++ " " ++ showH (H3.Gen.Bits.h3RotatePent60cw h)
+      ++ " " ++ mdc ++ " " ++ sh
+      ++ " " ++ b (H3.Gen.Bits.cellToParent_defined h rb o) ++ b (H3.Gen.Bits.cellToCenterChild_defined h rb o)
+      ++ b (H3.Gen.Bits.cellToChildrenSize_defined h rb o) ++ b (H3.Gen.Bits.isPentagon_defined h)
+      ++ b (H3.Gen.Bits.h3RotatePent60ccw_defined h) ++ b (H3.Gen.Bits.h3RotatePent60cw_defined h))
   | "mac", [h, r, d, v] => do
     let h ← parseH h
     let r ← r.toNat?
